@@ -878,7 +878,9 @@ class Transaction:
                     address = ledger.hash160_to_address(txo_script.values.get('pubkey_hash', ''))
                     private_key = await ledger.get_private_key_for_address(wallet, address)
                 else:
-                    private_key = next(iter(extra_keys.values()))
+                    redeem_script = txi.script.values['script']
+                    address = ledger.hash160_to_address(redeem_script.values['pubkey_hash'])
+                    private_key = extra_keys.get(address) if extra_keys else None
                 assert private_key is not None, 'Cannot find private key for signing output.'
                 tx = self._serialize_for_signature(i)
                 txi.script.values['signature'] = \
